@@ -72,6 +72,21 @@ def apply_dev(net, d):
         nb = pp.create_bus(net, float(net.bus.at[bus, "vn_kv"]), name="b%d" % len(net.bus))
         pp.create_switch(net, bus, nb, "b", closed=True)
         pp.create_load(net, nb, 1.0, 0.2, name="ld_bb")
+    elif k == "bb2":              # second busbar fused to `bus` (closed bus-bus switch) with a load and a line to bus `to`
+        _, bus, to = d
+        nb = pp.create_bus(net, float(net.bus.at[bus, "vn_kv"]), name="b%d" % len(net.bus))
+        pp.create_switch(net, bus, nb, "b", closed=True)
+        prm = dict(na.LINE110 if float(net.bus.at[bus, "vn_kv"]) > 50 else na.LINE)
+        pp.create_line_from_parameters(net, nb, to, name="l_bb2", **prm)
+        pp.create_load(net, nb, 2.0, 0.5, name="ld_bb2")
+    elif k == "bbo":              # busbar coupled to `bus` by an OPEN bus-bus switch, fed through a line from `to`,
+        _, bus, to = d            # with load and sgen of its own (injections on both sides of the open switch)
+        nb = pp.create_bus(net, float(net.bus.at[bus, "vn_kv"]), name="b%d" % len(net.bus))
+        pp.create_switch(net, bus, nb, "b", closed=False)
+        prm = dict(na.LINE110 if float(net.bus.at[bus, "vn_kv"]) > 50 else na.LINE)
+        pp.create_line_from_parameters(net, nb, to, name="l_bbo", **prm)
+        pp.create_load(net, nb, 6.0, 1.5, name="ld_bbo")
+        pp.create_sgen(net, nb, 3.0, 0.5, sn_mva=4., name="sg_bbo")
     elif k == "lsw_open":         # open line switch: line out of operation through a switch
         _, line = d
         pp.create_switch(net, int(net.line.at[line, "from_bus"]), line, "l", closed=False)
@@ -89,11 +104,12 @@ def build(case):
 def dev_menu(basename):
     if basename == "G6":
         return [["sn", 100.], ["gen_slack", 0], ["ext_ward", 1], ["ext_xward", 2], ["bb", 3], ["bb", 1],
+                ["dcline", 1, 3, 4.0], ["dcline", 4, 5, 0.5], ["bb2", 3, 2], ["bb2", 1, 0], ["bbo", 1, 2], ["bbo", 5, 4],
                 ["set", "line", 4, "in_service", False], ["lsw_open", 1], ["sgen", 3, 4.0, 1.0, 1., True],
                 ["shunt", 2, 0.2, -3.0, 1, 1.0, True], ["storage", 1, 2.0, 0.5, 1., True],
                 ["set", "load", 1, "scaling", 0.5], ["set", "gen", 0, "in_service", False],
                 ["motor", 1, 2.0, True]]
-    return [["sn", 100.], ["gen_slack", 0], ["ext_ward", 1], ["set", "line", 4, "in_service", False],
+    return [["sn", 100.], ["gen_slack", 0], ["ext_ward", 1], ["dcline", 1, 3, 4.0], ["set", "line", 4, "in_service", False],
             ["sgen", 3, 4.0, 1.0, 1., True], ["shunt", 2, 0.2, -3.0, 1, 1.0, True]]
 
 
@@ -106,8 +122,9 @@ def _adjacency(net):
         for f, t in zip(net[tab][a].values, net[tab][b].values):
             adj[int(f)].add(int(t))
             adj[int(t)].add(int(f))
-    for b, e, et in zip(net.switch.bus.values, net.switch.element.values, net.switch.et.values):
-        if et == "b":
+    for b, e, et, c in zip(net.switch.bus.values, net.switch.element.values, net.switch.et.values,
+                           net.switch.closed.values):
+        if et == "b" and c:
             adj[int(b)].add(int(e))
             adj[int(e)].add(int(b))
     return adj
